@@ -11,10 +11,12 @@
     resample                                 the initial take, then one item per unit of position
     resample, step stream                    k - 1 step values (the step is read after the yield)
     Streamix event                           k - (outputs before the event starts)
+    attack(a, d, <iterable>)                 1 for the len_a+len_d line samples, then 1 + (k - len_a - len_d)
     chains                                   composition of the above
   `needOf d 0 = 0` for every stage: construction reads nothing.
 -/
 import ALV.Model.C02
+import ALV.Model.C02Stop
 namespace ALV.C02
 
 def ceilDiv (k hop : Nat) : Nat := (k + hop - 1) / hop
@@ -59,6 +61,10 @@ def auxNeedEvent (delta : Rat) (k : Nat) : Nat := k - (delta - 1 / 2).ceil.toNat
 /-- outputs of a Streamix before an event with time `delta` starts -/
 def smixStartSpec (delta : Rat) : Nat := (delta - 1 / 2).ceil.toNat
 
+/-- `attack(a, d, <iterable sustain>)`, `n = len_a + len_d`: nothing before the first demand, ONE
+    sustain item (the decay target) for the `n` line samples, then one item per output -/
+def needAttack (n k : Nat) : Nat := if k = 0 then 0 else 1 + (k - n)
+
 def needOf : Desc → Nat → Nat
   | .sample, k | .scan, k | .first, k | .zcross _, k | .par _, k | .cascade _, k => k
   | .filt pat, k => nthPass pat k
@@ -72,6 +78,7 @@ def needOf : Desc → Nat → Nat
   | .resample order step, k => needResample order step k
   | .resampleTV order steps, k => needResampleTV order steps k
   | .smix delta, k => k - smixStartSpec delta
+  | .attack n, k => needAttack n k
 
 def needOfChain : List Desc → Nat → Nat
   | [], k => k
@@ -90,5 +97,33 @@ def Desc.Valid : Desc → Prop
 
 instance : DecidablePred Desc.Valid := fun d => by
   cases d <;> unfold Desc.Valid <;> infer_instance
+
+/-! ### chains with stopping stages: items pulled after `k` REQUESTS (successful or not) on a
+    source that is long enough -/
+
+/-- `limit N`: `min k N` — never more, also when asked past the end -/
+def needLimit (N k : Nat) : Nat := min k N
+
+/-- `takewhile` passing the first `n` items: the failing item is the last one read -/
+def needTakewhile (n k : Nat) : Nat := min k (n + 1)
+
+/-- `islice(start, stop, step)`: output `k` is item `start + (k-1)*step`; never past `max start stop` -/
+def needIsliceStop (start stop step k : Nat) : Nat :=
+  if k = 0 then 0 else min (start + (k - 1) * step + 1) (max start stop)
+
+def needOfXChain : List XDesc → Nat → Nat
+  | [], k => k
+  | .plain d :: ds, k => needOf d (needOfXChain ds k)
+  | .limit N :: ds, k => needLimit N (needOfXChain ds k)
+  | .takewhile n :: ds, k => needTakewhile n (needOfXChain ds k)
+  | .islice start stop step :: ds, k => needIsliceStop start stop step (needOfXChain ds k)
+
+def XDesc.Valid : XDesc → Prop
+  | .plain d => d.Valid
+  | .islice _ _ step => 0 < step
+  | _ => True
+
+instance : DecidablePred XDesc.Valid := fun d => by
+  cases d <;> unfold XDesc.Valid <;> infer_instance
 
 end ALV.C02
